@@ -46,6 +46,13 @@ def run(ctx):
     ctx.do(rule_version_scope)
     ctx.do(rule_builtin_parity)
     ctx.do(rule_type_grammar)
+    # version-scoped registries: every lookup / registration / name validation is made with the version in force at the call
+    # site, never a hard-coded or defaulted one
+    from . import C14
+    ctx.do(C14.rule_version_in_scope, rule_id="C19.version-scope", only_callees={
+        "stix2.registry::class_for_type", "stix2.registration::_register_object", "stix2.registration::_register_marking",
+        "stix2.registration::_register_observable", "stix2.registration::_register_extension",
+        "stix2.registration::_validate_props", "stix2.properties::_validate_type"})
     from .hidden_state import rule_no_hidden_state
     ctx.do(rule_no_hidden_state, "C19.history-independence")
 
